@@ -464,3 +464,105 @@ Qed.
 
 Theorem lit_events_ok lbase mb b : forallb ev_ok (lit_events lbase mb b) = true.
 Proof. destruct mb; [apply enc_lit_matched_ok | apply enc_lit_normal_ok]. Qed.
+
+(* ---------------------------------------------------------------------------------------------
+   4. Repeated matches *)
+Theorem rep_roundtrip_of_ok c ps idx len evs c' rest :
+  enc_rep_events c ps idx len = Ok (evs, c') ->
+  run_trace (decode_rep_match c ps) (evs ++ rest) = Some (Ok (c', len), rest).
+Proof.
+  unfold enc_rep_events, decode_rep_match. cbv zeta. intros H.
+  destruct (key1 K_IS_REP0 12 (c_state c)) as [k0| | |]; cbn [obind] in H; try discriminate.
+  rewrite run_trace_bind_lift_ok.
+  destruct (Z.eqb_spec idx 0) as [Hi0|Hi0].
+  - destruct (key2 K_IS_REP0_LONG 12 16 (c_state c) ps) as [k0l| | |]; cbn [obind] in H; try discriminate.
+    destruct (Z.eqb_spec len 1) as [Hl1|Hl1].
+    + apply Ok_inj in H. injection H as <- <-. subst len. cbn [app].
+      rewrite run_trace_bit by (left; reflexivity). cbn [Z.eqb].
+      rewrite run_trace_bind_lift_ok.
+      rewrite run_trace_bit by (left; reflexivity). cbn [Z.eqb]. reflexivity.
+    + destruct (enc_len K_REP_LEN len ps) as [elen| | |] eqn:EL; cbn [obind] in H; try discriminate.
+      apply Ok_inj in H. injection H as <- <-. cbn [app].
+      rewrite run_trace_bit by (left; reflexivity). cbn [Z.eqb].
+      rewrite run_trace_bind_lift_ok.
+      rewrite run_trace_bit by (right; reflexivity). cbn [Z.eqb Pos.eqb].
+      rewrite (run_trace_bind_ok _ _ _ _ _ (proj2 (len_roundtrip_of_ok _ _ _ _ rest EL))).
+      reflexivity.
+  - destruct ((idx <? 0) || (3 <? idx) || (len =? 1)); [discriminate|].
+    destruct (key1 K_IS_REP1 12 (c_state c)) as [k1| | |]; cbn [obind] in H; try discriminate.
+    destruct (key1 K_IS_REP2 12 (c_state c)) as [k2| | |]; cbn [obind] in H; try discriminate.
+    destruct (idx =? 1); [|destruct (idx =? 2)];
+      (destruct (enc_len K_REP_LEN len ps) as [elen| | |] eqn:EL; cbn [obind] in H; try discriminate);
+      apply Ok_inj in H; injection H as <- <-; cbn [app].
+    + rewrite run_trace_bit by (right; reflexivity). cbn [Z.eqb Pos.eqb].
+      rewrite run_trace_bind_lift_ok.
+      rewrite run_trace_bit by (left; reflexivity). cbn [Z.eqb pbind].
+      rewrite (run_trace_bind_ok _ _ _ _ _ (proj2 (len_roundtrip_of_ok _ _ _ _ rest EL))).
+      reflexivity.
+    + rewrite run_trace_bit by (right; reflexivity). cbn [Z.eqb Pos.eqb].
+      rewrite run_trace_bind_lift_ok.
+      rewrite run_trace_bit by (right; reflexivity). cbn [Z.eqb Pos.eqb pbind lift].
+      rewrite run_trace_bit by (left; reflexivity). cbn [Z.eqb pbind].
+      rewrite (run_trace_bind_ok _ _ _ _ _ (proj2 (len_roundtrip_of_ok _ _ _ _ rest EL))).
+      reflexivity.
+    + rewrite run_trace_bit by (right; reflexivity). cbn [Z.eqb Pos.eqb].
+      rewrite run_trace_bind_lift_ok.
+      rewrite run_trace_bit by (right; reflexivity). cbn [Z.eqb Pos.eqb pbind lift].
+      rewrite run_trace_bit by (right; reflexivity). cbn [Z.eqb Pos.eqb pbind].
+      rewrite (run_trace_bind_ok _ _ _ _ _ (proj2 (len_roundtrip_of_ok _ _ _ _ rest EL))).
+      reflexivity.
+Qed.
+
+(* the statement as requested (the range hypotheses are not needed: enc_rep_events checks the keys) *)
+Theorem rep_roundtrip c ps idx len evs c' rest :
+  0 <= c_state c < 12 -> 0 <= ps < 16 ->
+  enc_rep_events c ps idx len = Ok (evs, c') ->
+  run_trace (decode_rep_match c ps) (evs ++ rest) = Some (Ok (c', len), rest).
+Proof. intros _ _. apply rep_roundtrip_of_ok. Qed.
+
+(* what enc_rep_events accepts *)
+Lemma enc_rep_events_inv c ps idx len evs c' :
+  enc_rep_events c ps idx len = Ok (evs, c') ->
+  0 <= c_state c < 12 /\ 0 <= idx <= 3 /\ ((idx = 0 /\ len = 1 /\ 0 <= ps < 16) \/ 2 <= len <= 273).
+Proof.
+  unfold enc_rep_events. intros H.
+  destruct (key1 K_IS_REP0 12 (c_state c)) as [k0| | |] eqn:K0; cbn [obind] in H; try discriminate.
+  apply key1_inv in K0 as [Hs _]. split; [assumption|].
+  destruct (Z.eqb_spec idx 0) as [Hi0|Hi0].
+  - split; [lia|].
+    destruct (key2 K_IS_REP0_LONG 12 16 (c_state c) ps) as [k0l| | |] eqn:K0L; cbn [obind] in H; try discriminate.
+    apply key2_inv in K0L as (_ & Hps & _).
+    destruct (Z.eqb_spec len 1) as [Hl1|Hl1]; [left; lia|].
+    destruct (enc_len K_REP_LEN len ps) as [elen| | |] eqn:EL; cbn [obind] in H; try discriminate.
+    right. apply (len_roundtrip_of_ok _ _ _ _ [] EL).
+  - destruct (Z.ltb_spec idx 0) as [Ha|Ha]; [discriminate|].
+    destruct (Z.ltb_spec 3 idx) as [Hb|Hb]; [discriminate|].
+    destruct (len =? 1); [discriminate|]. cbn [orb] in H.
+    destruct (key1 K_IS_REP1 12 (c_state c)) as [k1| | |]; cbn [obind] in H; try discriminate.
+    destruct (key1 K_IS_REP2 12 (c_state c)) as [k2| | |]; cbn [obind] in H; try discriminate.
+    split; [lia|]. right.
+    destruct (idx =? 1); [|destruct (idx =? 2)];
+      (destruct (enc_len K_REP_LEN len ps) as [elen| | |] eqn:EL; cbn [obind] in H; try discriminate);
+      apply (len_roundtrip_of_ok _ _ _ _ [] EL).
+Qed.
+
+Theorem rep_events_ok c ps idx len evs c' :
+  enc_rep_events c ps idx len = Ok (evs, c') -> forallb ev_ok evs = true.
+Proof.
+  unfold enc_rep_events. intros H.
+  destruct (key1 K_IS_REP0 12 (c_state c)) as [k0| | |]; cbn [obind] in H; try discriminate.
+  destruct (idx =? 0).
+  - destruct (key2 K_IS_REP0_LONG 12 16 (c_state c) ps) as [k0l| | |]; cbn [obind] in H; try discriminate.
+    destruct (len =? 1).
+    + apply Ok_inj in H. injection H as <- <-. reflexivity.
+    + destruct (enc_len K_REP_LEN len ps) as [elen| | |] eqn:EL; cbn [obind] in H; try discriminate.
+      apply Ok_inj in H. injection H as <- <-. cbn [forallb ev_ok Z.eqb Pos.eqb orb andb].
+      apply (enc_len_events_ok _ _ _ _ EL).
+  - destruct ((idx <? 0) || (3 <? idx) || (len =? 1)); [discriminate|].
+    destruct (key1 K_IS_REP1 12 (c_state c)) as [k1| | |]; cbn [obind] in H; try discriminate.
+    destruct (key1 K_IS_REP2 12 (c_state c)) as [k2| | |]; cbn [obind] in H; try discriminate.
+    destruct (idx =? 1); [|destruct (idx =? 2)];
+      (destruct (enc_len K_REP_LEN len ps) as [elen| | |] eqn:EL; cbn [obind] in H; try discriminate);
+      apply Ok_inj in H; injection H as <- <-; cbn [app forallb ev_ok Z.eqb Pos.eqb orb andb];
+      apply (enc_len_events_ok _ _ _ _ EL).
+Qed.
